@@ -1,2 +1,7 @@
 -- Root of the `TfPwaV` library: hand-written models (Mathlib-free).
 import TfPwaV.Model.LS
+import TfPwaV.Model.Util
+import TfPwaV.Model.ScalarF
+import TfPwaV.Model.ScalarQ
+import TfPwaV.Model.Wigner
+import TfPwaV.Model.WignerF
